@@ -574,6 +574,49 @@ def tab_eci(ctx):
     return obs
 
 
+def _encode_str_by_fold(f, fn):
+    b = f.thir[fn]
+    pn = [(p_.get("pat") or {}).get("name") for p_ in b["params"]]
+    if len(pn) != 2 or not all(pn):
+        return None
+    utf8 = f.const("decodation::eci::ECI_UTF8")
+    for latin1 in (True, False):
+        calls = []
+
+        def on_call(folder, c, calls=calls, latin1=latin1):
+            cc = T.canon(T.callee_of(c))
+            if cc == "data::utf8_to_latin1":
+                arg = folder.fold(c["args"][0])
+                if str(arg) != "TEXT":
+                    raise T.Undecidable("utf8_to_latin1 of something else")
+                if latin1:
+                    return {"__adt__": "core::option::Option", "__variant__": "Some", "#0": T.Token("LATIN1"), "0": T.Token("LATIN1")}
+                return {"__adt__": "core::option::Option", "__variant__": "None"}
+            if cc.endswith("str::as_bytes") and str(folder.fold(c["args"][0])) == "TEXT":
+                return T.Token("TEXT-BYTES")
+            if cc.endswith("DataMatrixBuilder::encode_eci"):
+                a = [folder.fold(x) for x in c["args"]]
+                calls.append(a)
+                return T.Token("RESULT")
+            if cc.split("::")[-1] in ("deref", "as_slice", "as_ref", "borrow") and len(c["args"]) == 1:
+                return folder.fold(c["args"][0])
+            return NotImplemented
+        try:
+            res = T.Folder(f, env={pn[0]: T.Token("SELF"), pn[1]: T.Token("TEXT")}, on_call=on_call, effects=True, local_calls=0).run(b["body"])
+        except (T.Undecidable, T.Trap):
+            return None
+        if len(calls) != 1 or str(res) != "RESULT" or str(calls[0][0]) != "SELF":
+            return False
+        data, eci = T._loaded(calls[0][1]), T._loaded(calls[0][2])
+        if latin1:
+            if str(data) != "LATIN1" or not (isinstance(eci, dict) and eci.get("__variant__") == "None"):
+                return False
+        else:
+            if str(data) != "TEXT-BYTES" or not (isinstance(eci, dict) and eci.get("__variant__") == "Some" and eci.get("#0") == utf8):
+                return False
+    return True
+
+
 def str_branch(ctx):
     r = "STR-BRANCH"
     f = ctx.facts()
@@ -617,6 +660,11 @@ def str_branch(ctx):
             is_eci = a2[0] == "adt" and a2[2] == "Some" and a2[3][0][1][0] == "const" and a2[3][0][1][1].endswith("ECI_UTF8")
             oke = is_bytes and is_eci
         ok = okc and okt and oke
+    if not ok:
+        # statement shape not recognised: fold encode_str for both outcomes of utf8_to_latin1 and look at the encode_eci call
+        okx = _encode_str_by_fold(f, fn)
+        if okx:
+            ok, det = True, "decided by folding encode_str for both outcomes of utf8_to_latin1"
     obs.append(Ob(r, "encode_str", ok, "encode_str: Some(latin1) -> encode_eci(&latin1, None); None -> encode_eci(text.as_bytes(), Some(ECI_UTF8))",
                   site=T.span_str(b["span"]), detail=det))
     # encode_data_internal: write_eci iff eci is Some, with that value (folded for the four flag / option combinations)
